@@ -2,6 +2,10 @@
 import random
 import dbggen, dbgcommon
 
+# observations the property does not speak about: a difference in these alone breaks the correspondence
+# but is not an input on which the property fails (reported with no-failing-input-found)
+AUX = ('cmds differs',)
+
 ASSUMPTIONS = [
     "`assembly` output is observed in --minimal mode (the statement's text); the fancy context rendering of the non-minimal mode is miette's and not modelled",
     "label names avoid spellings the command language reads as numbers/registers (x1, b1, o7, r3)",
@@ -90,7 +94,7 @@ def correspondence(ctx, violations, known_hits):
     rnd, specs = gen(ctx.tier, ctx.seed)
     cases, tags = dbgcommon.make_cases(rnd, specs)
     profiles = ("debug",)
-    r = dbgcommon.run_dbg_cases(ctx, cases, tags, violations, profiles,
+    r = dbgcommon.run_dbg_cases(ctx, cases, tags, violations, profiles, aux=AUX,
                                 note="model: assembly shows the slice of the parser's span for that address (C17_assembly); labels resolve to origin + line - 1 (C17_label)")
     ctx.cleanup()
     return dbgcommon.coverage(r,
